@@ -16,6 +16,7 @@ import (
 	"strings"
 	"sync/atomic"
 	"time"
+	"unicode/utf8"
 
 	"github.com/la5nta/wl2k-go/transport"
 )
@@ -430,8 +431,16 @@ func (s *Session) writeCompressed(rw io.ReadWriter, p *Proposal) (err error) {
 
 	writer := bufio.NewWriter(rw)
 
+	// The title is limited to 80 bytes by the protocol (and the header length must fit in one
+	// byte). Shorten it by whole characters until the encoded form fits.
+	shortTitle := p.title
+	for len(shortTitle) > 0 && len(mime.QEncoding.Encode("utf-8", shortTitle)) > 80 {
+		_, size := utf8.DecodeLastRuneInString(shortTitle)
+		shortTitle = shortTitle[:len(shortTitle)-size]
+	}
+
 	var (
-		title    = mime.QEncoding.Encode("utf-8", p.title) // Word-encode the title since this field must be ASCII-only
+		title    = mime.QEncoding.Encode("utf-8", shortTitle) // Word-encode the title since this field must be ASCII-only
 		offset   = fmt.Sprintf("%d", p.offset)
 		length   = len(title) + len(offset) + 2
 		checksum int64
